@@ -114,7 +114,7 @@ func (c11) Plan(tier string, seed int64) []mon.Workload {
 // list and in a list inside it) is not a container that contains itself.
 var c11SharedBuilds = []string{"b = [1, 2]\na = [b, b]", "b = {\"k\": 1}\na = {\"p\": b, \"q\": b}", "m = [7]\na = [m, [m]]", "b = [1]\nc = [b, b]\na = [c, c, b]", "b = []\na = [b, b]",
 	"b = [1, 2]\na = [[1, 2], [1, 2]]", "b = [1]\na = [b]\nb[0] = a"}
-var c11SharedUses = []string{"strfmt(out, \"%v\", a)", "strfmt(out, \"%v|%v\", a, b)", "printf(\"%v\\n\", a)", "strfmt(out, \"%s and %d\", a, 1)", "add_key(out, a)", "strfmt(out, \"%v %v\", b, b)"}
+var c11SharedUses = []string{"fs = [\"<%v>\\n\", \"[%v]\\n\", \"{%v}\\n\"]\nfor f in fs {\n  printf(f, a)\n}\nfor i = 0; i < 3; i = i + 1 {\n  g = fs[i]\n  printf(g, i)\n}", "strfmt(out, \"%v\", a)", "strfmt(out, \"%v|%v\", a, b)", "printf(\"%v\\n\", a)", "strfmt(out, \"%s and %d\", a, 1)", "add_key(out, a)", "strfmt(out, \"%v %v\", b, b)"}
 
 func c11SharedCase(i int64) c11Case {
 	use := c11SharedUses[int(i)%len(c11SharedUses)]
